@@ -7,14 +7,7 @@ Local Open Scope N_scope.
 (* kind: 1 *net.TCPAddr, 2 *net.UDPAddr, 3 any other net.Addr; ip: the bytes of the net.IP *)
 Record addr := mkAddr { a_kind : N; a_ip : list N }.
 
-Fixpoint be_value (acc : N) (l : list N) : N :=
-  match l with [] => acc | b :: r => be_value (acc * 256 + b) r end.
-
-Definition is_v4mapped (ip : list N) : bool :=
-  match ip with
-  | [0;0;0;0;0;0;0;0;0;0;255;255;_;_;_;_] => true
-  | _ => false
-  end.
+(* be_value, is_v4mapped: C03.Model *)
 
 (* the bucket key = net.IP.String(): an IPv4 address prints the same in its 4-byte and in its
    v4-mapped 16-byte form; every other 16-byte address prints as itself; a nil IP prints "<nil>".
